@@ -400,6 +400,45 @@ def log_prob_plan():
     return (worst[0] if worst else "NoBatch"), plans
 
 
+SEEDERS = ("configure_random_seed", "seed", "manual_seed", "manual_seed_all", "default_rng", "set_state", "set_rng_state",
+           "seed_everything")
+
+
+def resume_seeding():
+    """Does the resume path touch the random number generators?  Every function a resume goes through is searched for
+    calls that seed / restore a generator.  -> (Coq term of type list seff, list of sites)."""
+    sites = []
+    todo = []
+    for cname in ("BaseNestedSampler", "NestedSampler", "ImportanceNestedSampler"):
+        for meth in ("resume", "resume_from_pickled_sampler", "check_resume", "__setstate__"):
+            todo.append((cname, meth))
+    for cname in ("Proposal", "AnalyticProposal", "RejectionProposal", "FlowProposal", "AugmentedFlowProposal",
+                  "ImportanceFlowProposal", "FlowModel", "ImportanceFlowModel", "OrderedSamples", "Model"):
+        for meth in ("resume", "__setstate__"):
+            todo.append((cname, meth))
+    seen = set()
+    for cname, meth in todo:
+        for n in cls_node(cname).body:
+            if isinstance(n, ast.FunctionDef) and n.name == meth and (cname, meth) not in seen:
+                seen.add((cname, meth))
+                for c in ast.walk(n):
+                    if isinstance(c, ast.Call):
+                        d = dotted(c.func) or (c.func.attr if isinstance(c.func, ast.Attribute) else "")
+                        if d.split(".")[-1] in SEEDERS and d.split(".")[-1] != "seed" or \
+                                (d.split(".")[-1] == "seed" and ("random" in d or d == "seed")):
+                            sites.append(f"{cname}.{meth}: {unparse(c)}")
+    mod, _ = parse("nessai/flowsampler.py")
+    fs = find_class(mod, "FlowSampler")
+    for n in fs.body:
+        if isinstance(n, ast.FunctionDef) and n.name in ("_resume_from_file", "_resume_from_data", "check_resume"):
+            for c in ast.walk(n):
+                if isinstance(c, ast.Call):
+                    d = dotted(c.func) or ""
+                    if d.split(".")[-1] in SEEDERS and (d.split(".")[-1] != "seed" or "random" in d):
+                        sites.append(f"FlowSampler.{n.name}: {unparse(c)}")
+    return "[" + "; ".join("SReseed" for _ in sites) + "]", sites
+
+
 TARGETS = [("NestedSampler", "cls_sampler"), ("ImportanceNestedSampler", "cls_ins_sampler"),
            ("FlowProposal", "cls_proposal"), ("AugmentedFlowProposal", "cls_proposal"),
            ("RejectionProposal", "cls_proposal"), ("ImportanceFlowProposal", "cls_ins_proposal"),
@@ -416,3 +455,4 @@ if __name__ == "__main__":
     print(counter_effects())
     print(loop_prologue())
     print(log_prob_plan())
+    print(resume_seeding())
